@@ -62,6 +62,9 @@ func c26Check(c c26Case, r *ev.Rec) error {
 	if esc != dv {
 		return fmt.Errorf("EscapeBytes(%x) = %q but descriptor default_value = %q", c.Bytes, esc, dv)
 	}
+	if want := cEscape(c.Bytes); esc != want {
+		return fmt.Errorf("EscapeBytes(%x) = %q, absl::CEscape (what protoc writes) gives %q", c.Bytes, esc, want)
+	}
 	for i := 0; i < len(esc); i++ {
 		if esc[i] < 0x20 || esc[i] >= 0x7f {
 			return fmt.Errorf("EscapeBytes(%x) = %q contains a non-printable byte", c.Bytes, esc)
